@@ -44,8 +44,18 @@ META = {
     "level_note": "Trusted: Coq kernel + vm_compute; the subdivision.py translator; the correspondence harness "
                   "(generators, driver canonicalisation, exact rational read-back of binary64 coordinates on inputs that "
                   "are multiples of 2^10*3^5*5*7). The order of a Python set (loop_subdivision's edge set) is not "
-                  "modelled: results that passed through it are compared up to the induced renumbering of the new "
-                  "vertices (computed and checked inside Coq) and as edge sets.",
+                  "modelled: results that passed through it are compared up to the renumbering it induces on the new "
+                  "vertices (computed and checked inside Coq) and as edge sets. "
+                  "Deliberately left free (the oracle, which alone produces concrete violations, does not constrain them): the "
+                  "exception class and message of a refusal, and whether an element id that does not exist is refused at all "
+                  "(if it is refused and caught, the state left behind is judged); the order of the edge list, which end of an "
+                  "edge is listed first, the order of the corner containers (compared as incidence multisets), the order and "
+                  "rotation of face / cell rows and the numbering of new vertices (counts, arities, half-edge validity and "
+                  "multisets of centres are compared); last-bit float differences (new positions, total area and volume are "
+                  "compared with tolerance 1e-9(1+|x|), original vertices must be bit-identical); extra warnings, log lines, "
+                  "attributes, dtypes of index rows; nothing is ever compared with a pristine run, only with the independent "
+                  "oracle. The kernel-checked correspondence compares the model's exact lists (a property-preserving rewrite may "
+                  "therefore end as `no-failing-input-found`, never as a concrete violation).",
 }
 
 HEADER = """From Coq Require Import ZArith List Bool QArith Qcanon.
